@@ -765,19 +765,55 @@ def install_adb():
   _patch(timeouts, 'time', vt)
 
 
-def run(choose, body, max_steps=200000, names=None, watchdog_s=30.0, early_timers=None):
-  """Runs body() under a fresh scheduler on the calling thread. Returns (result, sched)."""
+def _line_tracer(codes):
+  """sys.settrace function: every source line of the designated functions becomes a scheduling point, so that two
+  threads can be interleaved inside code that performs no synchronisation action at all (plain attribute reads and
+  writes, set / dict updates) - CPython may switch threads between any two bytecodes"""
+  def local(frame, event, arg):
+    if event == 'line':
+      s = SCHED
+      if s is not None and s.failed is None and s.me() is not None:
+        s.yield_point(('line', frame.f_code.co_name, frame.f_lineno))
+    return local
+
+  def tracer(frame, event, arg):
+    if event == 'call' and frame.f_code in codes:
+      return local
+    return None
+  return tracer
+
+
+def codes_of(*funcs):
+  out = set()
+  for f in funcs:
+    f = getattr(f, '__func__', f)
+    f = getattr(f, 'fget', f) or f
+    out.add(f.__code__)
+  return out
+
+
+def run(choose, body, max_steps=200000, names=None, watchdog_s=30.0, early_timers=None, trace_lines=None):
+  """Runs body() under a fresh scheduler on the calling thread. Returns (result, sched).
+  trace_lines: set of code objects (codes_of(f, g, ...)) whose source lines are scheduling points."""
   global SCHED
   s = Sched(choose, max_steps=max_steps, names=names)
   s.early_timers = early_timers
   SCHED = s
   box = {}
+  old_trace, old_ttrace = sys.gettrace(), getattr(_th, '_trace_hook', None)
+  if trace_lines:
+    tr = _line_tracer(set(trace_lines))
+    _th.settrace(tr)
+    sys.settrace(tr)
   try:
     try:
       box['ret'] = body(s)
     except (Deadlock, SchedulerStuck) as e:
       box['sched_error'] = e
   finally:
+    if trace_lines:
+      sys.settrace(old_trace)
+      _th.settrace(old_ttrace)
     # let the remaining threads run to completion (or give up) without control
     SCHED_done = s
     s.failed = s.failed or SchedulerStuck('run finished')
